@@ -271,7 +271,7 @@ theorem compileStmtH_rel (hP : HRel V drop P) (env : CEnv) : (s : CStmt) → {st
         (compileStmtsH_rel hP env e (fun n hn => hv n (Or.inr hn)) (hd.imp id (fun x => x.2)) h3))
         (hP.chk _ _ _ _)) (hP.chk _ _ _ _)
   | .for_ v cond 0 body, st, st', eff, b, hv, hd, h => by
-      obtain ⟨cc, s1, bs, bb, s3, h1, h3, _, _, rfl⟩ := invS_for0 h
+      obtain ⟨x0, cc, s1, bs, bb, s3, _, h1, h3, _, _, rfl⟩ := invS_for0 h
       simp only [stmtNames, List.mem_cons, List.mem_append] at hv
       simp only [noConstTernS, Bool.and_eq_true] at hd
       exact hP.trans (hP.trans (hP.trans (hP.trans (hP.trans
@@ -281,7 +281,7 @@ theorem compileStmtH_rel (hP : HRel V drop P) (env : CEnv) : (s : CStmt) → {st
         (compileStmtsH_rel hP env body (fun n hn => hv n (Or.inr (Or.inr hn))) (hd.imp id And.right) h3))
         (hP.chk _ _ _ _)) (hP.chk _ _ _ _)
   | .for_ v cond (k+1) body, st, st', eff, b, hv, hd, h => by
-      obtain ⟨cc, s1, stepEff, stepSrc, bs, bb, s3, h1, _, h3, _, _, rfl⟩ := invS_forK (Nat.succ_ne_zero k) h
+      obtain ⟨x0, cc, s1, stepEff, stepSrc, bs, bb, s3, _, h1, _, h3, _, _, rfl⟩ := invS_forK (Nat.succ_ne_zero k) h
       simp only [stmtNames, List.mem_cons, List.mem_append] at hv
       simp only [noConstTernS, Bool.and_eq_true] at hd
       exact hP.trans (hP.trans (hP.trans (hP.trans
